@@ -28,9 +28,10 @@ class StepLimit(Exception):
 
 
 class Proc:
-    __slots__ = ("pid", "name", "ev", "done", "pred", "thread", "waitdesc", "exc")
+    __slots__ = ("pid", "name", "ev", "done", "pred", "thread", "waitdesc", "exc", "gview")
 
     def __init__(self, pid, name):
+        self.gview = None   # forked process: its own copies of the tracked module globals
         self.pid = pid
         self.name = name
         self.ev = threading.Event()
@@ -180,6 +181,41 @@ class Sim:
         return self.procs[pid].name if 0 <= pid < len(self.procs) else "?"
 
     # ------------------------------------------------------------------ log
+    # ------------------------------------------------ fork isolation of module globals
+    def track_globals(self, items):
+        """items: list of (module, name).  From now on a forked process works on its own copy of
+        these bindings (taken at fork time), as a real fork()ed worker would."""
+        self._tracked = list(items)
+
+    def fork_view(self, proc, copier):
+        tracked = getattr(self, "_tracked", None)
+        if not tracked:
+            return
+        view = {}
+        for mod, name in tracked:
+            try:
+                view[(mod, name)] = copier(getattr(mod, name))
+            except Exception:
+                view[(mod, name)] = getattr(mod, name)
+        proc.gview = view
+
+    def _swap_globals(self, frm, to):
+        if frm is to or not getattr(self, "_tracked", None):
+            return
+        fv = frm.gview if frm is not None else None
+        tv = to.gview if to is not None else None
+        if fv is None and tv is None:
+            return
+        main_view = self.__dict__.setdefault("_main_view", {})
+        for mod, name in self._tracked:
+            cur = getattr(mod, name, None)
+            # save the binding of the process that stops running
+            (fv if fv is not None else main_view)[(mod, name)] = cur
+            # install the binding of the process that starts running
+            src = tv if tv is not None else main_view
+            if (mod, name) in src:
+                setattr(mod, name, src[(mod, name)])
+
     def emit(self, kind, detail=None):
         if self.aborting or not self.log_enabled:
             return
@@ -248,6 +284,7 @@ class Sim:
             self._declare_deadlock()
             return
         nxt = runnable[self.sched.choose(runnable, me)]
+        self._swap_globals(me, nxt)
         self.cur = nxt
         nxt.ev.set()
 
@@ -297,6 +334,7 @@ class Sim:
             me.pred = None
             me.waitdesc = None
             return
+        self._swap_globals(me, nxt)
         self.cur = nxt
         nxt.ev.set()
         me.ev.wait()
@@ -344,6 +382,11 @@ class Sim:
         main = self.procs[0]
         main.ev.clear()
         main.pred = None
+        # whatever process ran last: the driver's bindings are the ones in force afterwards
+        mv = self.__dict__.get("_main_view")
+        if mv and self.cur is not None and self.cur is not main and self.cur.gview is not None:
+            for (mod, name), val in mv.items():
+                setattr(mod, name, val)
         self.procs = [main]
         self.pools = []
         self.cur = main
